@@ -21,6 +21,22 @@ SPEC = {
  "C14a": ("itest", "octo-squirrel", "c14_address_roundtrip", "server", False),
  "C15a": ("itest", "octo-squirrel-test", "c15_app_closes_first_target_lingers", None, True),
  "C16a": ("itest", "octo-squirrel", "c16_chacha8_tcp", None, False),
+ # round 2
+ "C01b": ("proj", None, ["run", "--offline"], None, False),
+ "C02b": ("itest", "octo-squirrel-server", "udp_reply_owner", None, True),
+ "C03b": ("proj", None, ["test", "--offline"], None, False),
+ "C04b": ("proj", None, ["test", "--offline"], None, False),
+ "C05b": ("itest", "octo-squirrel", "c05_udp_reflection", "client,server", False),
+ "C06b": ("proj", None, ["run", "--offline"], None, False),
+ "C07b": ("proj", None, ["test", "--offline"], None, False),
+ "C08b": ("proj", None, ["run", "--offline"], None, False),
+ "C09b": ("proj", None, ["run", "--offline"], None, False),
+ "C10b": ("proj", None, ["test", "--offline"], None, False),
+ "C11b": ("itest", "octo-squirrel-server", "c11_replay_other_addr", None, True),
+ "C12b": ("proj", None, ["test", "--offline"], None, False),
+ "C14b": ("itest", "octo-squirrel", "c14_addr_roundtrip", "client,server", False),
+ "C15b": ("proj", None, ["run", "--offline"], None, False),
+ "C16b": ("itest", "octo-squirrel-server", "c16_unknown_cipher", None, True),
 }
 
 
